@@ -55,6 +55,19 @@ def rule(cell: str, deg: int):
         p, w = interval(deg)
         return ([[x, y, z] for x in p for y in p for z in p],
                 [a * b * c for a in w for b in w for c in w])
+    if cell == "triangle" and deg <= 1:
+        return [[Fr(1, 3), Fr(1, 3)]], [Fr(1, 2)]
+    if cell == "triangle" and deg == 2:
+        return [[Fr(1, 6), Fr(1, 6)], [Fr(2, 3), Fr(1, 6)], [Fr(1, 6), Fr(2, 3)]], [Fr(1, 6)] * 3
+    if cell == "triangle" and deg == 3:
+        return ([[Fr(1, 3), Fr(1, 3)], [Fr(1, 5), Fr(1, 5)], [Fr(3, 5), Fr(1, 5)], [Fr(1, 5), Fr(3, 5)]],
+                [Fr(-27, 96), Fr(25, 96), Fr(25, 96), Fr(25, 96)])
+    if cell == "tetrahedron" and deg <= 1:
+        return [[Fr(1, 4)] * 3], [Fr(1, 6)]
+    if cell == "tetrahedron" and deg <= 3:
+        return ([[Fr(1, 4)] * 3, [Fr(1, 6), Fr(1, 6), Fr(1, 6)], [Fr(1, 2), Fr(1, 6), Fr(1, 6)],
+                 [Fr(1, 6), Fr(1, 2), Fr(1, 6)], [Fr(1, 6), Fr(1, 6), Fr(1, 2)]],
+                [Fr(-2, 15), Fr(3, 40), Fr(3, 40), Fr(3, 40), Fr(3, 40)])
     if cell == "triangle":
         pu, wu = interval(deg + 1)
         pv, wv = interval(deg)
